@@ -1106,6 +1106,10 @@ lyd_insert_sibling(struct lyd_node *sibling, struct lyd_node *node, struct lyd_n
 
     first_sibling = lyd_first_sibling(sibling);
     if (node->parent || node->prev->next || !node->next) {
+        if (first_sibling == node) {
+            /* the node is the first of these siblings and is going to be unlinked from them */
+            first_sibling = node->next;
+        }
         LY_CHECK_RET(lyd_unlink_tree(node));
         lyd_insert_set_new(node, 0);
         lyd_insert_node(NULL, &first_sibling, node, LYD_INSERT_NODE_DEFAULT);
